@@ -55,6 +55,7 @@ ASSUMPTIONS = ["'continuing with the same calls': the call program is split at t
                "pinned stream: every arm sets p.rng = s (public setter) before the first continuation call; natural stream: nothing is set, the reloaded object's full-batch permutation differs (summation order only)",
                "tolerances: relative to the largest magnitude of the uninterrupted observable; pinned 1e-6 (measured: exactly 0), natural 1e-5 (property text). In the natural stream the floating-point observables are judged only for well-conditioned cases: the uninterrupted run is repeated with two other full-batch orders and must move by <= 2e-7 (measured: among 668 cases judged at a 5e-7 floor the largest reload/clone deviation was 4.9e-6, so the floor was tightened to keep a margin below 1e-5); otherwise (Adam-amplified rounding noise, large cyclic LRs) only iteration count, constraints and LR-history keys/lengths are judged there and the pinned stream judges the same case deterministically",
                "schedulers are given explicit parameters (gamma, total_iters, step sizes) so that a split call builds the same scheduler as the unsplit one would",
+               "clone()'s in-memory path (copy.deepcopy succeeds only for a dataset built with learn_scan_positions=False) is exercised by a fixed block of configurations, every split point",
                "quick tier: the forced configurations and the session histories run every (call-boundary) split; random single-run configurations with more than four split points run the first, the one after one iteration, the last and one random split (thorough: every split point)"]
 EXPLANATION = ("Theorems in Props/C05.lean are about Model/Checkpoint.lean + Model/CheckpointSession.lean (which import the C01 serializer model); each run performs real "
                "reconstructions with every split point — also call histories with rejected calls and staged optimisation — compares uninterrupted/reloaded/cloned runs, "
@@ -194,6 +195,9 @@ def gen_cfg(rng, idx, force=None):
     if rng.chance(0.3):
         calls[0]["snap"] = rng.choice([1, 2])      # store_snapshots=True, store_snapshots_every
     cfg["calls"] = calls
+    for flag in ("learn_positions", "learn_descan"):       # dataset constructor flags (non-default values only when forced)
+        if flag in force:
+            cfg[flag] = force[flag]
     # request for the save_raw_data=False route; whether it is taken is decided at the checkpoint (run_case)
     cfg["raw"] = force.get("raw", rng.chance(0.6))
     if not cfg["raw"]:
@@ -384,6 +388,7 @@ def cfg_sig(cfg, split, pinned):
     pos = "first" if before == 0 else ("last" if before == total else "inner")
     return (str(kinds), str(scheds), cfg["obj_type"], cfg["num_probes"], cfg["num_slices"], cfg["store"], cfg["raw"], cfg["learn_tilt"],
             len(calls), pos, "pinned" if pinned else "natural") + \
+        ((("learn_positions", cfg["learn_positions"], cfg.get("learn_descan", True)),) if "learn_positions" in cfg else ()) + \
         ((str([c.get("bad") or ("reset" if c.get("reset") else "opt" if (c.get("opt") or c.get("opt_list")) else "") for c in calls]),
           split[0], bool(calls[0].get("autograd", True)), cfg.get("load_device")) if cfg.get("session") else ())
 
@@ -956,7 +961,7 @@ def run(ctx):
     drv = None if os.environ.get("C05_NO_DRIVER") else Driver("C05")
     rng = ctx.rng.fork(5)
     n_cfg = ctx.n(34, 150)
-    budget = 155.0 if not ctx.thorough() else 1050.0
+    budget = 140.0 if not ctx.thorough() else 1050.0
     if ctx.search_mode:
         budget *= 2
     t0 = time.time()
@@ -987,9 +992,20 @@ def run(ctx):
                                                  "configure" if (c.get("opt") or c.get("opt_list") or c.get("sched")) else "continue")] += 1
                 for sp in session_splits(cfg, ctx.thorough()):
                     run_case(ctx, drv, cfg, sp, True, scratch)
-                if time.time() - t0 > sess_budget + 25.0:
+                if time.time() - t0 > sess_budget + 15.0:
                     ctx.dist["session_stopped_on_time_budget_after_cfgs"] = i + 1
                     break
+        # clone()'s in-memory path: copy.deepcopy(self) only succeeds for a dataset built with learn_scan_positions=False
+        # (otherwise the dataset holds a non-leaf tensor and clone() takes the save / from_file fallback).  Fixed block,
+        # the same class for every seed, every split point.
+        if only is None:
+            crng = ctx.rng.fork(13)
+            for j in range(ctx.n(2, 6)):
+                cfg = gen_cfg(crng.fork(j), j, {"learn_positions": False, "learn_descan": j % 2 == 0, "shape": "single", "n": 2 + j % 2,
+                                                "keys": ["object", "probe"], "raw": True, "opt": OPT_TYPES[j % 3]})
+                ctx.dist["cfg:clone-in-memory-block"] += 1
+                for sp in splits_of(cfg):
+                    run_case(ctx, drv, cfg, sp, True, scratch)
         for i in range(n_cfg):
             force = FORCED[i] if i < len(FORCED) else None
             cfg = gen_cfg(rng.fork(100 + i), i, force)
